@@ -1,5 +1,5 @@
 From MV Require Import Lib.ExtractBase C07.Model.
 From Coq Require Import ExtrOcamlBasic.
 Extraction Language OCaml.
-Extraction "c07_model" force_types init start step observe run readable writable contiguous_readable
+Extraction "c07_model" force_types init init_opt start start_opt step observe run readable writable contiguous_readable
   contiguous_writable jump_writable jump_readable acc_in_range len.
